@@ -1,7 +1,7 @@
 """C20 -- idle connections are reaped after the timeout and active ones never are (netmc under the
 virtual clock; event times placed just before / just after the threshold)."""
 from .. import netmc, netcheck
-from ..netmc import Scenario, HttpOrigin, RawOrigin
+from ..netmc import Scenario, HttpOrigin, RawOrigin, TimedOrigin
 from .c01 import stamp
 
 PROP = 'C20'
@@ -33,7 +33,8 @@ def scenarios(tier):
                     total_sleep = sum(st[1] for st in script if st[0] == 'sleep')
                     out.append(Scenario('%s/T%d/ph%d/%s' % (mode, T, ph, name), fa, mode=mode,
                                         clients=[dict(script=script, start_turn=ph, read_limit=read_limit)],
-                                        origins=og, dns=dns, kinds='', horizon=6000, min_time=total_sleep + T + 3.5, features=f))
+                                        origins=og, dns=dns, kinds='', horizon=6000,
+                                        min_time=max(total_sleep + T + 3.5, f.get('_min_time', 0)), features=f))
                 # nothing ever sent
                 S('silent', [('wait_eof',)])
                 # half a request, then silence
@@ -54,6 +55,13 @@ def scenarios(tier):
                 S('tunnel-idle', [('send', CONNECT), ('wait_recv', len(ACK) + 5), ('wait_eof',)])
                 S('tunnel-client-resumes', [('send', CONNECT), ('wait_recv', len(ACK) + 5), ('sleep', T - TICK),
                                             ('send', b'ping'), ('wait_eof',)], {'resumes': True})
+                # the UPSTREAM keeps the connection alive: it pushes a few bytes every (T - 2 ticks); each push is
+                # written to the client, i.e. client-side traffic -- the tunnel must survive until the last push
+                # plus the timeout, then be reaped
+                drips = [((i + 1) * (T - 2 * TICK), b'drip%d' % i) for i in range(3)]
+                S('tunnel-upstream-drips', [('send', CONNECT), ('wait_recv', len(ACK) + 5 + 15), ('wait_eof',)],
+                  {'resumes': True, '_min_time': drips[-1][0] + T + 3.5, '_expect_rx_prefix': ACK + b'hello' + b'drip0drip1drip2'},
+                  og={('10.0.0.2', 443): (lambda drips=drips: TimedOrigin(greeting=[b'hello'], schedule=drips))})
                 # pending output: the client does not read while a large response is queued; it resumes reading
                 # after more than the timeout -- nothing may be lost, and the idle clock restarts at the last flush
                 big = b'HTTP/1.1 200 OK\r\nContent-Length: 300000\r\n\r\n' + stamp(300000, 4)
@@ -113,6 +121,10 @@ def check(w):
         out.append({'symptom': 'connection_with_pending_output_was_cut', 'features': {},
                     'detail': dict(detail, got=len(c.rx), want=len(f['_expect_rx']))})
         return out
+    if '_expect_rx_prefix' in f and bytes(c.rx) != f['_expect_rx_prefix']:
+        out.append({'symptom': 'connection_kept_alive_by_upstream_traffic_was_cut', 'features': {},
+                    'detail': dict(detail, got=bytes(c.rx)[-40:], want=f['_expect_rx_prefix'][-40:])})
+        return out
     if close_t is None:
         out.append({'symptom': 'idle_connection_never_reaped', 'features': {}, 'detail': detail})
         return out
@@ -131,7 +143,7 @@ def run(tier):
     return netcheck.run(PROP, tier, scenarios(tier), check, 0, None, det_every=5,
                         rule='timeouts x reaper phase offsets x timed traces (silence, half request, after an exchange, activity '
                              'resuming 1 tick / 2 ticks / half a timeout before the deadline, three keep-alives in a row, tunnel '
-                             'with and without client activity, output pending across the deadline) x {threadless, threaded}, '
+                             'with and without client activity, upstream pushing data on its own clock, output pending across the deadline) x {threadless, threaded}, '
                              'under a virtual clock advanced by select() timeouts; plus an idle connection beside a continuously busy tunnel, '
                              'where every busy loop iteration costs 10 ms of virtual time')
 
